@@ -37,6 +37,15 @@ def gen_config(rng):
             else:
                 name = bt if lv <= 2 else bt + sep + keys[lv - 1]
             ents.append((name, '/'.join(parts[:lv])))
+        if rng.random() < 0.35 and len(keys) >= 3:
+            # a second chain of the same basetype that diverges from the first (a level inserted or renamed below a shared prefix):
+            # its prefixes propose type names that the first chain may have generated already
+            d = rng.randrange(1, len(keys))
+            extra = [k for k in KEYS if k not in keys] or ['zz']
+            keys2 = keys[:d] + [rng.choice(extra)] + (keys[d:] if rng.random() < 0.6 else keys[d + 1:])
+            parts2 = [ph(k) if i_ >= d else parts[i_] for i_, k in enumerate(keys2)]
+            for lv in sorted(set([len(keys2)] + [rng.randint(d + 1, len(keys2)) for _ in range(rng.randint(0, 1))]), reverse=True):
+                ents.append((bt + sep + keys2[lv - 1] if rng.random() < 0.8 else bt + sep + keys2[lv - 1] + '_2', '/'.join(parts2[:lv])))
         templates.extend(ents)
         for name, _ in ents:
             if rng.random() < 0.6:
@@ -106,7 +115,7 @@ def spec_extrapolate(templates, to_ex, sep):
 class C19(PropBase):
     id = 'C19'
     rule = ('template sets from the grammar of the property (1-4 basetypes, chains of 2-9 keys, explicit intermediates, '
-            'shared prefixes, key named like the basetype, custom separators) + random selectors; a case is non-trivial '
+            'shared prefixes, a second diverging chain per basetype, key named like the basetype, custom separators) + random selectors; a case is non-trivial '
             'when extrapolation adds at least one type / replacement changes at least one template; distinct by input')
     partial_note = ''
     def cases(self, rng, ctx, tier):
